@@ -154,3 +154,24 @@ package db
 //@ func (*LDBReadTransaction).FetchBucket
 //@   assert-at call Get record-looked-up-in-this-database: arg0 == tx.ldb
 //@   ensures only-recorded-buckets: result != nil ==> lastresult("Get", 1) == nil
+
+// ---- listing sub-buckets scans "b_<depth+1>_<names>_" (with the trailing separator); scan results own their bytes
+//@ func (*LDBBucket).BucketNames
+//@   assert-at call Itoa records-of-the-next-depth: arg0 == b.depth + 1
+//@   assert-at call joinBucketPath#2 scan-prefix-ends-with-the-separator: len(arg0) >= 2 && arg0[0] == lastresult("Itoa") && arg0[len(arg0) - 1] == ""
+//@   assert-at call joinBucketPath#1 under-the-record-marker: len(arg0) == 2 && arg0[0] == "b" && arg0[1] == lastresult("joinBucketPath#2")
+//@ func (*LDBReadBucket).BucketNames
+//@   assert-at call Itoa records-of-the-next-depth: arg0 == b.depth + 1
+//@   assert-at call joinBucketPath#2 scan-prefix-ends-with-the-separator: len(arg0) >= 2 && arg0[0] == lastresult("Itoa") && arg0[len(arg0) - 1] == ""
+//@   assert-at call joinBucketPath#1 under-the-record-marker: len(arg0) == 2 && arg0[0] == "b" && arg0[1] == lastresult("joinBucketPath#2")
+//@ func (*LDBTransaction).BucketNames
+//@   assert-at call joinBucketPath top-level-records-prefix: len(arg0) == 3 && arg0[0] == "b" && arg0[1] == "1" && arg0[2] == ""
+//@ func (*LDBReadTransaction).BucketNames
+//@   assert-at call joinBucketPath top-level-records-prefix: len(arg0) == 3 && arg0[0] == "b" && arg0[1] == "1" && arg0[2] == ""
+
+//@ func (*LDBBucket).GetByPrefix
+//@   assert-at store Entry.Key entry-owns-its-key-bytes-without-the-bucket-prefix: fresh(value) && len(value) == len(lastresult("Key")) - (b.pathLen + 1)
+//@   assert-at store Entry.Value entry-owns-its-value-bytes: fresh(value) && len(value) == len(lastresult("Value"))
+//@ func (*LDBReadBucket).GetByPrefix
+//@   assert-at store Entry.Key entry-owns-its-key-bytes-without-the-bucket-prefix: fresh(value) && len(value) == len(lastresult("Key")) - (b.pathLen + 1)
+//@   assert-at store Entry.Value entry-owns-its-value-bytes: fresh(value) && len(value) == len(lastresult("Value"))
